@@ -66,6 +66,15 @@ def asserts(sc):
             same = (f.cancelled == o.cancelled) if (is_sym(f.cancelled) or is_sym(o.cancelled)) else (f.cancelled == o.cancelled)
             out.append((f'job {f.j}: outside the cancelled subtree its cancelled status is unchanged',
                         A.imp(b_and(o.present, b_not(inside)), same)))
+    if sc.last_kind == 'cancel_group' and sc.outcomes:
+        # an ACCEPTED cancellation (the handler returned normally) is recorded: the group is cancelled afterwards, whatever the
+        # state of the batch (not yet committed, running, complete) - otherwise later work in it is accepted and runs
+        g = sc.last_args['group']
+        now = b_or(*[b_and(i_eq(g, h), oracle.group_cancelled(db, h)) for h in oracle.groups(db)])
+        for o in sc.outcomes[-1][1]:
+            if o.exc is None:
+                pc = z3.And(*o.pc) if o.pc else True
+                out.append(('an accepted cancellation is recorded (the group is cancelled afterwards)', A.imp(pc, now)))
     if sc.last_kind in ('schedule', 'creating', 'started'):
         res = sc.last_result
         rc = res.col('rc')
@@ -85,6 +94,11 @@ def run(R):
     run_bmc_property(R, 'C07', sizes, n1=2, g1=1, alphabet=[a for a in ALPH if not a.startswith('u2_')] if quick else ALPH,
                      depth=2, asserts=asserts, classify=lambda bad, vals, sc, known: 'cancellation-confinement-violated',
                      extra_seqs=DEEP, workers=int(os.environ.get('VERIF_WORKERS', '12')))
+    # cancellations that arrive while the batch is not running: before update 1 is committed
+    run_bmc_property(R, 'C07', model.Sizes(J=3, G=2, U=2, I=1, A=2, T=2, IC=1), n1=2, g1=1, alphabet=['cancel_group', 'commit1', 'schedule'],
+                     depth=2, asserts=asserts, classify=lambda bad, vals, sc, known: 'cancellation-confinement-violated',
+                     commit=False, extra_seqs=[('cancel_group', 'commit1', 'schedule'), ('cancel_group', 'commit1', 'creating')],
+                     workers=int(os.environ.get('VERIF_WORKERS', '12')))
 
 
 def replay(path):
